@@ -159,3 +159,15 @@ Example ex_raise : write_fields ex_specs [XStr (s2l "dfalt"); XInt 1234567; XNon
 Proof. vm_compute. split; reflexivity. Qed.
 Example ex_line_length : exists line, write_values ex_specs [XStr (s2l "dfalt"); XInt 2; XReal true 3 (-1); XReal false 1 (-2)] = Ok line /\ length line = 30%nat.
 Proof. eexists. split; [vm_compute; reflexivity|reflexivity]. Qed.
+
+(** an empty line (end of file: readline returns '') or a bare newline: every field absent *)
+Theorem empty_line_all_absent rf specs i f rest :
+  rf_ok rf -> nth_error specs i = Some f -> (rest = [] \/ rest = [newline]) ->
+  nth_error (parse_string rf specs rest) i = Some (absent_result (ft f)).
+Proof.
+  intros Hrf Hf Hrest.
+  assert (W : write_fields specs [] = Ok []) by (destruct specs; reflexivity).
+  exact (tail_reads_absent rf specs [] [] i f rest Hrf W (Nat.le_0_l i) Hf Hrest).
+Qed.
+Example ex_empty_line : parse_string default_rf ex_specs [] = [RStr []; RNone; RNone; RNone].
+Proof. vm_compute. reflexivity. Qed.
